@@ -114,14 +114,22 @@ where
     have hrt : (s.readThrough p).isSome := by simp [St.readThrough, hw, ho]
     simp [hrt, ho, upd]
 
-/-- K7 (hard links are regular files, so `untrack` leaves them as they are): a hard-linked target whose
-    object is shared with another tracked path stays a read-only alias of the cache object. -/
-theorem C05_untrack_hardlink_counterexample :
+/-- K7 repaired: a hard-linked target whose object is shared with another tracked path becomes an
+    independent writable copy (witness of the scenario that used to stay a read-only alias) -/
+theorem C05_untrack_shared_hardlink_becomes_file :
     let s0 := ((St.init.userWrite ⟨0, 1⟩ [104]).userWrite ⟨1, 1⟩ [104])
     let s1 := (s0.track {} { method := some .hardlink } [⟨0, 1⟩, ⟨1, 1⟩]).1
     let s2 := (s1.untrack [⟨0, 1⟩]).1
-    s2.ws ⟨0, 1⟩ = some (.file [104] false 1 (some ⟨⟨0, [104]⟩, 1⟩)) ∧ (s2.cache ⟨⟨0, [104]⟩, 1⟩).isSome = true := by
+    s2.ws ⟨0, 1⟩ = some (.file [104] true 3 none) ∧ (s2.cache ⟨⟨0, [104]⟩, 1⟩).isSome = true := by
   decide
+
+/-- a hard-linked target is re-materialised as an independent writable copy of its object (one target) -/
+theorem C05_untrack_hardlink_becomes_file (s : St) (p : Path) (a : Addr) (o : Obj) (b : Bytes) (w : Bool) (st : Nat)
+    (hw : s.ws p = some (.file b w st (some a))) (ho : s.cache a = some o) :
+    ∃ st', (s.recheckFromCache p a .copy).1.ws p = some (.file o.b true st' none) := by
+  unfold St.recheckFromCache
+  have hrt : (s.readThrough p).isSome := by simp [St.readThrough, hw]
+  simp [hrt, ho, upd]
 
 example : ∃ s : St, ∃ a o, s.cache a = some o ∧ (s.remove [⟨0, 1⟩] false false).1.cache a = none :=
   ⟨((St.init.userWrite ⟨0, 1⟩ [104]).track {} {} [⟨0, 1⟩]).1, ⟨⟨0, [104]⟩, 1⟩, ⟨[104], true, 1⟩, by decide, by decide⟩
@@ -139,4 +147,6 @@ open Repo in
 open Repo in
 #print axioms C05_untrack_symlink_becomes_file
 open Repo in
-#print axioms C05_untrack_hardlink_counterexample
+#print axioms C05_untrack_shared_hardlink_becomes_file
+open Repo in
+#print axioms C05_untrack_hardlink_becomes_file
